@@ -112,6 +112,10 @@ Fixpoint walk_ok (strict : bool) (vw : msg -> tdata -> tdata) (w ttl : N) (seen 
   | BProbe :: e', OProbe q f :: o' =>
       (match q with [] => true | _ => N.leb w (N.of_nat (length f)) end) &&
       Nat.leb (length q) (length seen) && nodupb N.eqb q && walk_ok strict vw w ttl seen hist e' o'   (* no idle worker while messages wait *)
+  (* Judge soundness (Proofs/JudgeSoundC19P.v): an Observe / pick-up / probe event whose recorded output is of another
+     kind used to fall through to the catch-all below and was accepted unchecked - e.g. an Observe "answered" by ONone
+     passed although C19_nonblocking demands an answer (witness bg_ok_before_unsound).  Such an output is now rejected. *)
+  | BObserve _ _ :: _, _ :: _ | BTake _ :: _, _ :: _ | BProbe :: _, _ :: _ => false
   | _ :: e', _ :: o' => walk_ok strict vw w ttl seen hist e' o'
   | _, _ => false
   end.
